@@ -71,9 +71,9 @@ Definition unpyints (v : pyv) : res (list Z) :=
   | _ => Raise TypeError
   end.
 
-(* COO.reshape up to the point where coordinates are computed: `-1` inference (generated, float
-   division inside) when `any(d == -1 for d in shape)`, then the size test (its raise is
-   generated), then SparseArray.__init__'s rejection of negative extents. *)
+(* COO.reshape up to the point where coordinates are computed: `-1` inference (generated) when `any(d == -1 for d in shape)`, then the size test (its raise is
+   generated), then SparseArray.__init__'s rejection of negative extents.  (Integer arithmetic
+   since the repair of finding D12; the generated fragment has no float operator.) *)
 Definition coo_reshape_shape (old : shape) (new : list Z) : res (list Z) :=
   new' <- (if existsb (fun d => d =? -1) new
            then (r <- g_reshape_infer (pyints new) (VInt (size old)) ;;
@@ -83,9 +83,6 @@ Definition coo_reshape_shape (old : shape) (new : list Z) : res (list Z) :=
   then (_ <- g_reshape_size_mismatch (pyints new') (VInt (size old)) ;; Raise OtherError)
   else if existsb (fun d => d <? 0) new' then Raise ValueError
   else Ok new'.
-
-(* the domain clause of finding D12: the float quotient is exact for sizes up to 2^53 *)
-Definition d12_clause (old : shape) : bool := size old <=? 2 ^ 53.
 
 (* coords[-(i+1)] = (linear_loc // strides) % d, strides the product of the later extents *)
 Fixpoint unravel_strided (sh : shape) (n : Z) : idx :=
@@ -333,19 +330,9 @@ Section Ops.
     ax <- mapM (py_axis nd) ax0 ;;
     Ok (coo_make (c_shape x) (map_coords (flip_idx (c_shape x) ax) x) (c_fill x) false).
 
-  (* max(a.shape + shift) as written.  When shift has become an ndarray (np.full, after a scalar
-     or one-element shift), `+` is NumPy broadcasting of a (ndim,) tuple with a (k,) array: it
-     raises ValueError unless ndim = k or one of them is 1 (finding D7), and max() of an empty
-     result raises ValueError; when shift is still a tuple, `+` is concatenation.  can_store on the
-     default index type (intp) holds for every value met here. *)
-  Definition roll_guard (sh : shape) (is_array : bool) (shifts : list Z) : res unit :=
-    let nd := length sh in let k := length shifts in
-    if is_array then
-      if negb ((nd =? k)%nat || (nd =? 1)%nat || (k =? 1)%nat) then Raise ValueError
-      else if (nd =? 0)%nat || (k =? 0)%nat then Raise ValueError
-      else Ok tt
-    else
-      match sh ++ shifts with [] => Raise ValueError | _ => Ok tt end.
+  (* the guard `all(can_store(dtype, int(sh)) and can_store(dtype, a.shape[ax] + int(sh)) for ...)`
+     holds for every shift on the default index type intp (narrow / unsigned coordinate types are
+     property C15), so it does not appear below. *)
 
   (* for sh, ax in zip(shift, axis): coords[ax] += sh; coords[ax] %= a.shape[ax] *)
   Definition roll_idx (shp : shape) (pairs : list (Z * Z)) (c : idx) : idx :=
@@ -358,7 +345,6 @@ Section Ops.
     let shifts := if is_array then repeat (hd 0 sl) (length ax) else sl in
     if negb (length ax =? length shifts)%nat then Raise ValueError
     else
-      _ <- roll_guard (c_shape x) is_array shifts ;;
       Ok (coo_make (c_shape x) (map_coords (roll_idx (c_shape x) (combine shifts ax)) x) (c_fill x) false).
 
   Definition coo_roll (x : coo V) (shift : shiftarg) (axis : axarg) : res (coo V) :=
